@@ -1,5 +1,11 @@
 package main
 
+import (
+	"strings"
+
+	"golang.org/x/tools/go/ssa"
+)
+
 func init() {
 	register(&propInfo{
 		ID:          "C09",
@@ -40,6 +46,12 @@ func init() {
 			ruleMapSlotMerge(c)
 			ruleCommaOk(c, internFuncs)
 			ruleClearJSON(c)
+			ruleNewFresh(c)
+			ruleInternKey(c)
+			ruleNoAliasDecode(c, func(f *ssa.Function) bool {
+				n := ssaFuncName(f)
+				return strings.Contains(n, "Interned") || strings.Contains(n, "interned")
+			})
 			ruleSharedStateInventory(c)
 		},
 	})
